@@ -222,6 +222,9 @@ def gen_channel(ch, k, profile):
         pr = ch.chance("wl", 0.6) if k > 0 else True
     elif profile == "c13":
         pr = ch.chance("wl", 0.3)
+    elif profile in ("c01", "c02", "c08") and k > 0:
+        # "any number of concurrently used channels": a partially reliable neighbour in a share of runs
+        pr = ch.chance("wl", 0.15)
     if pr:
         if ch.chance("wl", 0.5):
             c["maxRetransmits"] = ch.choice("wl", [0, 1, 3])
@@ -268,6 +271,7 @@ def generate(ch, profile):
     if ch.chance("cfg", 0.12):
         cfg["turn_refresh"] = {"side": ch.choice("cfg", ["A", "B"]), "nth": ch.choice("cfg", [3, 6, 10, 20, 40, 80]),
                                "dur": ch.choice("cfg", [0.005, 0.05, 0.3])}
+    cfg["lifecycle"] = profile == "c01" and ch.chance("cfg", 0.2)
     nchan = ch.choice("wl", [1, 1, 2, 2, 3, 4, 5])
     chans = [gen_channel(ch, k, profile) for k in range(nchan)]
     ops = []
@@ -291,11 +295,12 @@ def generate(ch, profile):
         c = ch.choice("wl", chans)
         side = ch.choice("wl", ["A", "B"])
         r = ch.index("wl", 100)
-        if profile == "c13" and r < 12 and c["tag"] not in closed:
+        lifecycle = profile == "c13" or (profile == "c01" and cfg.get("lifecycle"))
+        if lifecycle and r < 12 and c["tag"] not in closed:
             ops.append({"op": "close", "tag": c["tag"], "side": side, "t": ch.choice("wl", DTS)})
             closed.add(c["tag"])
             continue
-        if profile == "c13" and c["tag"] in closed and r < 40 and c["tag"] not in reused:
+        if lifecycle and c["tag"] in closed and r < 40 and c["tag"] not in reused:
             # re-use the id of a closed channel while faults are still active
             reused.add(c["tag"])
             ops.append({"op": "reuse", "tag": c["tag"], "newtag": "n%d" % len(reused), "side": side,
@@ -303,6 +308,15 @@ def generate(ch, profile):
             ops.append({"op": "send", "tag": "n%d" % len(reused), "side": side, "kind": "str", "size": 10, "t": 0.0})
             ops.append({"op": "send", "tag": "n%d" % len(reused), "side": "B" if side == "A" else "A",
                         "kind": "str", "size": 10, "t": ch.choice("wl", DTS)})
+            # several messages each way on the channel that took over the id, while faults are active
+            for sd in "AB":
+                ops.append({"op": "burst", "tag": "n%d" % len(reused), "side": sd, "count": ch.choice("wl", [2, 4, 8]),
+                            "size": ch.choice("wl", [10, 1201]), "kind": "str", "t": ch.choice("wl", [0.0, 0.0, 0.02])})
+            continue
+        if profile == "c13" and 24 <= r < 32:
+            # the threshold moves while data may be buffered
+            ops.append({"op": "threshold", "tag": c["tag"], "side": side, "t": ch.choice("wl", [0.0, 0.0, 0.001, 0.02]),
+                        "value": ch.choice("wl", [0, 1, 7, 1200, 1500, 2401, 5000, 1000000])})
             continue
         if r < 6 or (profile in ("c02", "c06") and r < 18) or (profile == "c13" and 12 <= r < 24):
             # burst larger than the congestion window
@@ -1014,7 +1028,9 @@ class World:
         model = self.chans.get(tag)
         if model is None or model.obj[side] is None:
             return
-        model.obj[side].bufferedAmountLowThreshold = value
+        if model.obj[side].bufferedAmount > 0:
+            self.probes["threshold_moved_while_buffered"] += 1
+        self.ctx[side].run(setattr, model.obj[side], "bufferedAmountLowThreshold", value)
         model.threshold[side] = value
 
     # -- quiescence / liveness ------------------------------------------------------
